@@ -5,6 +5,7 @@ notifier → waiter ordering.
 -/
 import LoomVerif.Proofs.C07Handover
 import LoomVerif.Proofs.SyncSched
+import LoomVerif.Proofs.WorldBasics
 
 namespace LoomVerif
 namespace C08
@@ -13,8 +14,9 @@ open C12 Sy C07
 /-! ### `Notify::notify` after its branch point -/
 
 /-- the explicit successor state of `notify`: the flag is set, the notifier's clocks are released
-into the object, and every OTHER thread whose pending operation is on the object is unparked
-(`Thread::unpark`: joins the notifier's causality, then `set_unparked`) -/
+into the object, and every OTHER thread whose pending operation is on the object joins the
+notifier's causality and is woken if it is blocked (`Thread.wake`; this is not `Thread::unpark`: a
+thread that is not blocked gets no `park` token) -/
 theorem notifyEffect_eq {w : World} {o : Nat} {s : NotifySt}
     (h : w.exec.objs[o]? = some (.notify s)) :
     w.notifyEffect o = .ok
@@ -24,12 +26,58 @@ theorem notifyEffect_eq {w : World} {o : Nat} {s : NotifySt}
           threads := { w.exec.threads with threads :=
             (w.exec.threads.threads.mapIdx fun i th =>
               if i = w.tid then th
-              else if th.operation.any (fun op => op.obj == o) then th.unpark w.ths.activeT
+              else if th.operation.any (fun op => op.obj == o) then
+                ({ th with causality := th.causality.join w.ths.activeT.causality }).wake
               else th) } } } := by
   unfold World.notifyEffect
   simp only [getNotify_of h, bind, Except.bind, pure, Except.pure]
   rw [wake_normal_form]
   rfl
+
+/-- the entry of every thread after `notify`: a thread OTHER than the notifier whose pending operation is on
+the object joins the notifier's causality and is woken if it is blocked (`Thread.wake`); every other entry is
+unchanged -/
+theorem notifyEffect_get {w w' : World} {o : Nat} {s : NotifySt}
+    (h : w.exec.objs[o]? = some (.notify s)) (hr : w.notifyEffect o = .ok w') (i : Nat) :
+    w'.ths.get i =
+      if i ≠ w.tid ∧ ∃ op, (w.ths.get i).operation = some op ∧ op.obj = o then
+        ({ w.ths.get i with
+            causality := (w.ths.get i).causality.join w.ths.activeT.causality }).wake
+      else w.ths.get i := by
+  unfold World.notifyEffect at hr
+  simp only [getNotify_of h, bind, Except.bind, pure, Except.pure] at hr
+  cases hr
+  rw [WB.forOthers_get]
+  simp only [WB.tid_setObj, WB.ths_setObj]
+  by_cases hi : i = w.tid
+  · simp [hi]
+  · cases hop : (w.ths.get i).operation with
+    | none => simp [hi]
+    | some op =>
+      by_cases ho : op.obj = o
+      · simp [hi, ho]
+      · simp [hi, ho]
+
+/-- `notify` hands out no `park` token, and changes a thread's state only by waking a blocked waiter: thread
+`i` is woken (its state changes; it becomes `runnable`, not `parked`) exactly if it is not the notifier, its
+pending operation is on the object and it is blocked -/
+theorem notifyEffect_wakes {w w' : World} {o : Nat} {s : NotifySt}
+    (h : w.exec.objs[o]? = some (.notify s)) (hr : w.notifyEffect o = .ok w') (i : Nat) :
+    (w'.ths.get i).token = (w.ths.get i).token ∧
+    ((w'.ths.get i).state ≠ (w.ths.get i).state ↔
+      i ≠ w.tid ∧ (∃ op, (w.ths.get i).operation = some op ∧ op.obj = o) ∧
+        (w.ths.get i).state = .blocked) ∧
+    ((w'.ths.get i).state ≠ (w.ths.get i).state →
+      (w'.ths.get i).state = .runnable ∧ (w'.ths.get i).parked = false) ∧
+    ((w'.ths.get i).state = (w.ths.get i).state → (w'.ths.get i).parked = (w.ths.get i).parked) := by
+  rw [notifyEffect_get h hr i]
+  split
+  · next hc =>
+    cases hb : (w.ths.get i).state <;>
+      simp [Thread.wake, Thread.isBlocked, Thread.setRunnable, hb, hc.1, hc.2]
+  · next hc =>
+    refine ⟨rfl, ⟨fun hne => absurd rfl hne, fun hh => absurd ⟨hh.1, hh.2.1⟩ hc⟩,
+      fun hne => absurd rfl hne, fun _ => rfl⟩
 
 /-- `notify` sets the flag and releases: the object's clock is above the notifier's causality -/
 theorem notifyEffect_hb {w w' : World} {o : Nat} {s : NotifySt}
@@ -50,7 +98,6 @@ theorem notifyWait2_unnotified {w : World} {o : Nat} {s : NotifySt}
     w.notifyWait2 o = .error .notNotified := by
   unfold World.notifyWait2
   simp [getNotify_of h, hn, bind, Except.bind]
-  rfl
 
 /-- notified: the waiter acquires the object's clock and consumes the flag -/
 theorem notifyWait2_notified {w : World} {o : Nat} {s : NotifySt}
